@@ -155,11 +155,18 @@ impl<'a> EntryTree<'a> {
             return;
         }
 
+        // `module_path!()` spells a raw identifier without its `r#` prefix when
+        // the name is not a keyword in the crate's edition (e.g. `r#try` in
+        // 2015), whereas `raw_name` is the identifier as written.
+        fn strip_raw(name: &str) -> &str {
+            name.strip_prefix("r#").unwrap_or(name)
+        }
+
         // Find the matching tree to insert the group into.
         for subtree in tree {
             match subtree {
                 EntryTree::Parent { raw_name, group: slot, .. }
-                    if group.meta.raw_name == *raw_name =>
+                    if strip_raw(group.meta.raw_name) == strip_raw(raw_name) =>
                 {
                     *slot = Some(group);
                     return;
